@@ -142,7 +142,7 @@ class Proc(object):
                  'stdout_w', 'stderr_w', 'popen', 'pending', 'death_time',
                  'death_cause', 'death_seq', 'reaped_by', 'dying', 'fdtable',
                  'orig_parent', 'term_first', 'written', 'wid',
-                 'late_forked', 'forked_by', 'spawn_step')
+                 'late_forked', 'forked_by', 'spawn_step', 'leader_gone')
 
     def __init__(self, pid, ppid, argv, kw, beh):
         self.pid = pid
@@ -174,6 +174,10 @@ class Proc(object):
         self.late_forked = False
         self.forked_by = None     # signal log entry whose handler forked it
         self.spawn_step = 0
+        # the main thread has exited (pthread_exit) while other threads go
+        # on: /proc and psutil call the process a zombie, waitpid() does not
+        # report it before the last thread is gone
+        self.leader_gone = False
 
     @property
     def alive(self):
@@ -411,6 +415,15 @@ class SimKernel(object):
     def external_exit(self, pid, code):
         return self.die(pid, status_exit(code), 'exit')
 
+    def external_leader_exit(self, pid):
+        """the main thread of the process exits, its other threads go on"""
+        p = self.procs.get(pid)
+        if p is None or not p.alive:
+            return False
+        p.leader_gone = True
+        self.sim.rec('leader_exit', pid)
+        return True
+
     # --------------------------------------------------------------- waitpid
     def waitpid(self, pid, options):
         sim = self.sim
@@ -439,6 +452,23 @@ class SimKernel(object):
                                'simulated daemon would block forever')
         self.waits.append((sim.now, pid, 0, 0))
         return (0, 0)
+
+    def waitid(self, idtype, ident, options):
+        """os.waitid(P_PID, pid, WEXITED | WNOHANG | WNOWAIT): a probe that
+        does not collect"""
+        self.sim.boundary('waitid')
+        me = self.getpid_value
+        p = self.procs.get(ident)
+        if idtype != os.P_PID or p is None or p.ppid != me or \
+                p.state == 'reaped':
+            raise ChildProcessError(errno.ECHILD, 'No child processes')
+        if p.state == 'zombie':
+            if not (options & os.WNOWAIT):
+                self._reap(p, 'waitid')
+            return (p.pid, p.wstatus)
+        if not (options & os.WNOHANG):
+            raise RuntimeError('blocking waitid on a live process')
+        return None
 
     def _reap(self, p, by):
         p.state = 'reaped'
@@ -659,6 +689,8 @@ class SimChild(_InfoMixin):
     def status(self):
         self._probe()
         p = self._proc()
+        if p.leader_gone and p.state == 'running':
+            return psutil.STATUS_ZOMBIE
         return {'running': psutil.STATUS_RUNNING,
                 'stopped': psutil.STATUS_STOPPED,
                 'zombie': psutil.STATUS_ZOMBIE}[p.state]
@@ -842,6 +874,8 @@ class SimPopen(_InfoMixin):
         p = self._proc()
         if p.state == 'reaped':
             raise NoSuchProcess(self.pid)
+        if p.leader_gone and p.state == 'running':
+            return psutil.STATUS_ZOMBIE
         return {'running': psutil.STATUS_RUNNING,
                 'stopped': psutil.STATUS_STOPPED,
                 'zombie': psutil.STATUS_ZOMBIE}[p.state]
